@@ -57,7 +57,13 @@ def check(case):
             if mode.get("nofanout"):
                 opts["nofanout"] = True
         result = call(prefix, grammar.binarize, gram, reordering=REORD["none" if mode["type"] == "leftright" else "optimal"], markov_opts=opts)
-    count = totals(result)
+    verify(prefix, bank, mode, totals(result), {w: dict(c) for w, c in lex.items()}, nodes, roots, tags, ref_gram, ref_lex)
+    multi = any(len(f) >= 4 and (len(ref_gram[f][l]) >= 2 or sum(ref_gram[f][l].values()) >= 2) for f in ref_gram for l in ref_gram[f])
+    return multi
+
+
+def verify(prefix, bank, mode, count, lex_now, nodes, roots, tags, ref_gram, ref_lex):
+    """count: {(func, lin): summed count} of the resulting grammar (in memory, or decoded from written files)"""
     for (f, l), c in count.items():
         if not isinstance(c, int) or c < 1:
             raise violation(prefix + "/non-positive-count", "%r %r -> %r" % (f, l, c))
@@ -98,11 +104,8 @@ def check(case):
                 got_small[lcfrs.canonical(f, l)] += c
         if small != got_small:
             raise violation(prefix + "/small-rule-count", "counts of rules with <= 2 rhs elements: %r, occurrences %r" % (sorted((got_small - small).items())[:2], sorted((small - got_small).items())[:2]))
-    lex_now = {w: dict(c) for w, c in lex.items()}
     if lex_now != {w: dict(c) for w, c in ref_lex.items()}:
         raise violation(prefix + "/lexicon", "lexicon counts changed")
-    multi = any(len(f) >= 4 and (len(ref_gram[f][l]) >= 2 or sum(ref_gram[f][l].values()) >= 2) for f in ref_gram for l in ref_gram[f])
-    return multi
 
 
 def modes(quick):
@@ -143,3 +146,38 @@ def gen(ctx):
 
 
 UNITS = [Unit("conservation", gen, check, shards=(4, 16))]
+
+
+# ----------------------------------------------------------------------------------------------- counts behind the command line
+
+def check_cli(case):
+    """`treetools grammar` (all grammar types and Markovization settings, sources in three formats, plain or gzip): the counts
+    in the written grammar and lexicon files obey the same conservation laws against the node and token counts of the treebank"""
+    from vlib import cligrammar
+    bank, mode = case["bank"], case["mode"]
+    count, lex = cligrammar.run("C08/cli", case)
+    ref_gram, ref_lex = lcfrs.extract_treebank(bank)
+    nodes, roots, tags = Counter(), Counter(), Counter()
+    for tree in bank:
+        roots[tree["root"]["l"]] += 1
+        for node in M.constituents(tree["root"]):
+            nodes[node["l"]] += 1
+        for tok in M.toks(tree["root"]):
+            tags[tok["p"]] += 1
+    prefix = "C08/cli-" + ("treebank" if mode["type"] == "treebank" else ("markov" if mode.get("markov") else "deterministic")) + ("-nofanout" if mode.get("nofanout") else "")
+    verify(prefix, bank, mode, dict(count), lex, nodes, roots, tags, ref_gram, ref_lex)
+    return any(len(f) >= 4 and (len(ref_gram[f][l]) >= 2 or sum(ref_gram[f][l].values()) >= 2) for f in ref_gram for l in ref_gram[f])
+
+
+def gen_cli(ctx):
+    from vlib import cligrammar
+    quick = ctx.tier == "quick"
+
+    def body(case):
+        multi = check_cli(case)
+        ctx.count(key=case, nontrivial=multi or case.get("gz") == 2, classes=cligrammar.classes(case))
+    ctx.hyp(cligrammar.settings(treebank(8 if quick else 11, 6), modes(quick)), body, max_examples=100 if quick else 1000, shrink=False,
+            smaller=cligrammar.smaller)
+
+
+UNITS.append(Unit("cli", gen_cli, check_cli, shards=(2, 8)))
